@@ -420,64 +420,111 @@ theorem planVehicles_sum (ops : BatOps α B) (law : BatLaw ops) (idem : LoadIdem
             · exact Or.inr ⟨b', hb'⟩
           · rw [hh]; simp only [Option.some.injEq]; congr 1; ring
 
-/-- without a surplus the final charging loop adds exactly the accounted levels to the connector -/
-theorem chargeVehicles_sum (ops : BatOps α B) (law : BatLaw ops) (t0 : α) (ht0 : 0 ≤ t0) :
-    ∀ (plans : List (PVeh α B × α)) (s : α) (st st' : PWorld α B × GcS α × List (String × α)),
-      PlansSum ops plans s → chargeVehicles ops t0 plans st = .ok st' →
-      st'.2.1.currentLoad = st.2.1.currentLoad + s ∧ st'.2.1.curMax = st.2.1.curMax ∧
-        st'.2.1.id = st.2.1.id := by
+/-- **a battery delivers `min(target, feasible)`**: asked for less than before (from the same state) it delivers the
+smaller of the new target and what it delivered before.  True of the ideal battery; implies that the part of a
+command beyond the plan is exactly what the vehicle took of the surplus. -/
+def LoadMin (ops : BatOps α B) : Prop :=
+  ∀ b s s' b' p, 0 ≤ s → s ≤ s' → ops.load b none none (some s') = .ok (b', p) →
+    ∃ b'', ops.load b none none (some s) = .ok (b'', min s p)
+
+/-- the repaired final loop adds the accounted levels plus at most the surplus to the connector -/
+theorem chargeVehicles_sum (ops : BatOps α B) (law : BatLaw ops) :
+    ∀ (plans : List (PVeh α B × α)) (s surplus : α) (st st' : PWorld α B × GcS α × List (String × α)),
+      0 ≤ surplus → (0 < surplus → LoadMin ops) → PlansSum ops plans s →
+      chargeVehicles ops plans surplus st = .ok st' →
+      ∃ c, 0 ≤ c ∧ c ≤ surplus ∧ st'.2.1.currentLoad = st.2.1.currentLoad + s + c ∧
+        st'.2.1.curMax = st.2.1.curMax ∧ st'.2.1.id = st.2.1.id := by
   intro plans
   induction plans with
   | nil =>
-    intro s st st' hs h
+    intro s surplus st st' hs0 _ hs h
     simp only [chargeVehicles, Except.ok.injEq] at h
     subst h
     simp only [PlansSum] at hs
     subst hs
-    simp
+    exact ⟨0, le_refl _, hs0, by ring, rfl, rfl⟩
   | cons q rest ih =>
-    intro s st st' hs h
-    obtain ⟨pv, sched⟩ := q
+    intro s surplus st st' hs0 hlm hs h
+    obtain ⟨pv, planned⟩ := q
     obtain ⟨w, gc, cmds⟩ := st
     obtain ⟨a, s', ⟨hnn, hd⟩, hrest, rfl⟩ := hs
-    unfold chargeVehicles at h
-    simp only [pymin_eq, min_eq_right ht0, sub_zero] at h
-    split at h
-    · rename_i hpos
-      split at h
-      · cases h
-      · rename_i csId hcs
-        obtain ⟨x, hx, hb⟩ := bind_ok h
-        obtain ⟨bat', p⟩ := x
-        have hpa : p = a := by
-          rcases hd with ⟨h0, _⟩ | ⟨b', hb'⟩
-          · simp only at h0; rw [h0] at hpos; exact absurd hpos (lt_irrefl _)
-          · simp only at hb'
-            rw [hb'] at hx
-            simp only [Except.ok.injEq, Prod.mk.injEq] at hx
-            exact hx.2.symm
-        subst hpa
-        have := ih s' _ _ hrest hb
-        obtain ⟨h1, h2, h3⟩ := this
-        obtain ⟨e1, e2, e3, _⟩ := addLoad_currentLoad gc csId p
-        simp only at h1 h2 h3 ⊢
-        rw [h1, h2, h3, e1, e2, e3]
-        exact ⟨by ring, rfl, rfl⟩
-    · rename_i hpos
+    simp only at hd
+    obtain ⟨csId, sched, hcs, hso, hcase⟩ := chargeVehicles_cons ops pv planned rest surplus w gc cmds st' h
+    have hge : planned ≤ sched := by
+      rcases hso with ⟨_, e⟩ | ⟨_, cs, _, e⟩
+      · rw [e]
+      · rw [e]; exact le_max_right _ _
+    have hub : sched - max planned 0 ≤ surplus := by
+      rcases hso with ⟨_, e⟩ | ⟨_, cs, _, e⟩
+      · rw [e]
+        have := le_max_left planned 0
+        linarith
+      · have hc := (clampPower_bounds (planned + surplus) cs.currentPower cs.maxPower cs.minPower
+          pv.v.minChargingPower).2
+        rw [e]
+        rcases le_total planned 0 with hp | hp
+        · rw [max_eq_right hp]
+          have : max (clampPower (planned + surplus) cs.currentPower cs.maxPower cs.minPower pv.v.minChargingPower)
+              planned ≤ surplus := by
+            apply max_le
+            · exact le_trans hc (max_le hs0 (by linarith))
+            · linarith
+          linarith
+        · rw [max_eq_left hp]
+          have : max (clampPower (planned + surplus) cs.currentPower cs.maxPower cs.minPower pv.v.minChargingPower)
+              planned ≤ planned + surplus := by
+            apply max_le
+            · exact le_trans hc (max_le (by linarith) (le_refl _))
+            · linarith
+          linarith
+    rcases hcase with ⟨hpos, bat', p, hload, hrec⟩ | ⟨hnpos, hrec⟩
+    · have hlp := law.load_target _ _ _ _ hload
+      rw [max_eq_left hpos.le] at hlp
+      set cons := max (p - max planned 0) 0 with hcons
+      have hc0 : 0 ≤ cons := le_max_right _ _
+      have hcle : cons ≤ surplus := by
+        apply max_le _ hs0
+        linarith [hlp.2]
+      have hpa : p = a + cons := by
+        rcases hd with ⟨h0, ha0⟩ | ⟨b1, hb1⟩
+        · rw [hcons, h0, ha0, max_self, sub_zero, max_eq_left hlp.1]; ring
+        · rcases le_or_gt planned 0 with hp | hp
+          · have ha := law.load_target _ _ _ _ hb1
+            rw [max_eq_right hp] at ha
+            have ha0 : a = 0 := le_antisymm ha.2 ha.1
+            rw [hcons, ha0, max_eq_right hp, sub_zero, max_eq_left hlp.1]; ring
+          · rw [hcons, max_eq_left hp.le]
+            rcases hso with ⟨_, e⟩ | ⟨hsp, _⟩
+            · rw [e] at hload
+              rw [hload] at hb1
+              simp only [Except.ok.injEq, Prod.mk.injEq] at hb1
+              have hap : p = a := hb1.2
+              have ha := hlp.2
+              rw [e] at ha
+              rw [hap, max_eq_right (by linarith)]; ring
+            · obtain ⟨b2, hb2⟩ := hlm hsp _ _ _ _ _ hp.le hge hload
+              rw [hb2] at hb1
+              simp only [Except.ok.injEq, Prod.mk.injEq] at hb1
+              rw [← hb1.2]
+              rcases le_total planned p with hpp | hpp
+              · rw [min_eq_left hpp, max_eq_left (by linarith)]; ring
+              · rw [min_eq_right hpp, max_eq_right (by linarith)]; ring
+      obtain ⟨c', hc'0, hc'le, e1, e2, e3⟩ := ih s' (surplus - cons) _ _ (by linarith)
+        (fun hp => hlm (by linarith)) hrest hrec
+      obtain ⟨a1, a2, a3, _⟩ := addLoad_currentLoad gc csId p
+      simp only at e1 e2 e3 ⊢
+      refine ⟨cons + c', by linarith, by linarith, ?_, by rw [e2, a2], by rw [e3, a3]⟩
+      rw [e1, a1, hpa]; ring
+    · have hle : sched ≤ 0 := not_lt.mp hnpos
       have ha0 : a = 0 := by
         rcases hd with ⟨_, h0⟩ | ⟨b', hb'⟩
         · exact h0
-        · simp only at hb'
-          have := law.load_target _ _ _ _ hb'
-          have hle : sched ≤ 0 := not_lt.mp hpos
-          rw [max_eq_right hle] at this
+        · have := law.load_target _ _ _ _ hb'
+          rw [max_eq_right (le_trans hge hle)] at this
           exact le_antisymm this.2 this.1
-      subst ha0
-      have := ih s' _ _ hrest h
-      obtain ⟨h1, h2, h3⟩ := this
-      simp only at h1 h2 h3 ⊢
-      rw [h1, h2, h3]
-      exact ⟨by ring, rfl, rfl⟩
+      obtain ⟨c', hc'0, hc'le, e1, e2, e3⟩ := ih s' surplus _ _ hs0 hlm hrest hrec
+      simp only at e1 e2 e3 ⊢
+      exact ⟨c', hc'0, hc'le, by rw [e1, ha0]; ring, e2, e3⟩
 
 theorem currentLoad_eq_sum (g : GcS α) : g.currentLoad = (g.loads.map (·.2)).sum := by
   unfold GcS.currentLoad
@@ -488,13 +535,14 @@ theorem currentLoad_eq_sum (g : GcS α) : g.currentLoad = (g.loads.map (·.2)).s
     | cons x xs ih => intro a; simp only [List.foldl_cons, List.map_cons, List.sum_cons]; rw [ih]; ring
   rw [this]; ring
 
-/-- one `step_gc` call on a connector without stationary batteries and without a surplus: the connector's load
-after the call is the prognosis of the current step, which never exceeds the currently valid limit -/
-theorem stepGc_limit_nobat (ops : BatOps α B) (law : BatLaw ops) (idem : LoadIdem ops) (env : PEnv α)
-    (hi : 0 < env.interval) (hsum : ∀ l, env.sum l = l.sum) (w : PWorld α B) (g : PGc α) (level : String)
-    (w' : PWorld α B) (cmds : List (String × α))
+/-- one `step_gc` call on a connector without stationary batteries (repaired final loop): the connector's load after
+the call is the prognosis of the current step plus what the vehicles took of a surplus; it never exceeds the
+currently valid limit and never falls below what it was -/
+theorem stepGc_limit_nobat (ops : BatOps α B) (law : BatLaw ops) (idem : LoadIdem ops) (lmin : LoadMin ops)
+    (env : PEnv α) (hi : 0 < env.interval) (hsum : ∀ l, env.sum l = l.sum) (w : PWorld α B) (g : PGc α)
+    (level : String) (w' : PWorld α B) (cmds : List (String × α))
     (hb : ∀ b ∈ w.batteries, (b.parent == g.gc.id) = false)
-    (hs : 0 ≤ g.gc.currentLoad) (hlim : g.gc.currentLoad ≤ g.gc.curMax)
+    (hcm : 0 ≤ g.gc.curMax) (hlim : g.gc.currentLoad ≤ g.gc.curMax)
     (h : stepGc ops env w g level = .ok (w', cmds)) :
     ∀ g' ∈ w'.gcs, g'.gc.id = g.gc.id →
       g'.gc.curMax = g.gc.curMax ∧ g.gc.currentLoad ≤ g'.gc.currentLoad ∧ g'.gc.currentLoad ≤ g.gc.curMax := by
@@ -532,9 +580,12 @@ theorem stepGc_limit_nobat (ops : BatOps α B) (law : BatLaw ops) (idem : LoadId
   have hts0 := getAt_zero_head ht0
   rw [hhead] at hts0
   have hp0 : ts0.power = sumLoads env g.gc.loads + s := by rw [← Option.some.inj hts0]
-  have hts0p : 0 ≤ ts0.power := by rw [hp0, hbase]; linarith
-  obtain ⟨c1, c2, c3⟩ := chargeVehicles_sum ops law ts0.power hts0p plans s _ _ hps hc
+  have hsur0 : 0 ≤ -(pymin ts0.power 0) := by
+    rw [pymin_eq]; have := min_le_right ts0.power 0; linarith
+  obtain ⟨c, hc0, hcle, c1, c2, c3⟩ := chargeVehicles_sum ops law plans s _ _ _ hsur0 (fun _ => lmin) hps hc
   simp only at c1 c2 c3 hsle
+  rw [hbase] at hsle hp0
+  rw [pymin_eq] at hcle
   intro g' hg' hid
   simp only [PWorld.setGc, List.foldl_nil, List.mem_map] at hg'
   obtain ⟨x, _, hx⟩ := hg'
@@ -542,8 +593,13 @@ theorem stepGc_limit_nobat (ops : BatOps α B) (law : BatLaw ops) (idem : LoadId
   · subst hx
     simp only
     rw [c1, c2]
-    rw [hbase] at hsle
-    exact ⟨rfl, by linarith, hsle⟩
+    refine ⟨rfl, by linarith, ?_⟩
+    rcases le_total 0 ts0.power with hpos | hneg
+    · rw [min_eq_right hpos] at hcle
+      have : c = 0 := le_antisymm (by linarith) hc0
+      rw [this]; linarith
+    · rw [min_eq_left hneg] at hcle
+      linarith
   · rename_i hne
     subst hx
     rw [hid] at hne
@@ -571,6 +627,27 @@ theorem toyOps_idem (cap pmax : ℚ) : LoadIdem (toyOps cap pmax) := by
   refine ⟨b + a / cap, ?_⟩
   simp only [toyOps, Option.getD_some, Option.getD_none, Except.ok.injEq, Prod.mk.injEq]
   rw [← hm, key]
+  exact ⟨rfl, rfl⟩
+
+theorem toy_aux (s s' m : ℚ) (hs0 : 0 ≤ s) (hss : s ≤ s') : max 0 (min s m) = min s (max 0 (min s' m)) := by
+  rcases le_total m 0 with hm0 | hm0
+  · rw [max_eq_left (le_trans (min_le_right s m) hm0), max_eq_left (le_trans (min_le_right s' m) hm0),
+      min_eq_right hs0]
+  · have h1 : 0 ≤ min s m := le_min hs0 hm0
+    have h2 : 0 ≤ min s' m := le_min (le_trans hs0 hss) hm0
+    rw [max_eq_right h1, max_eq_right h2, ← min_assoc, min_eq_left hss]
+
+theorem toy_min (x pmax y : ℚ) : min (min x pmax) (min pmax y) = min x (min pmax y) := by
+  rw [min_assoc, min_eq_right (min_le_left pmax y)]
+
+/-- the example battery delivers `min(target, feasible)` -/
+theorem toyOps_lmin (cap pmax : ℚ) : LoadMin (toyOps cap pmax) := by
+  intro b s s' b' p hs0 hss h
+  simp only [toyOps, Option.getD_some, Option.getD_none, Except.ok.injEq, Prod.mk.injEq] at h
+  obtain ⟨_, rfl⟩ := h
+  refine ⟨b + min s (max 0 (min (min s' pmax) (min pmax ((1 - b) * cap)))) / cap, ?_⟩
+  simp only [toyOps, Option.getD_some, Option.getD_none, Except.ok.injEq, Prod.mk.injEq]
+  rw [toy_min, toy_min, toy_aux s s' _ hs0 hss]
   exact ⟨rfl, rfl⟩
 
 /-- a battery that obeys `BatLaw` but does NOT deliver exactly: asked for ≥ 8 kW it delivers 6 kW, asked for less it
